@@ -246,6 +246,14 @@ impl World {
         }
     }
     fn sock_name(&self, a: &SocketAddr) -> String {
+        match a.to_string().as_str() {
+            "77.7.7.7:7000" => return "X4".into(),
+            "88.8.8.8:8000" => return "Y4".into(),
+            "[2001:db8:77::7]:7006" => return "X6".into(),
+            "[2001:db8:88::8]:8006" => return "Y6".into(),
+            "10.0.0.100:9000" => return "L4".into(),
+            _ => {}
+        }
         for k in 1..=NPEERS {
             if *a == SocketAddr::V4(v4_of(k)) {
                 return format!("p{k}.v4");
